@@ -42,6 +42,9 @@ def write_files(files, d):
             data = spec["text"].encode("utf-8", "surrogatepass") if isinstance(spec["text"], str) else spec["text"]
         with open(p, "wb") as f:
             f.write(data)
+        # identical timestamps (as after extracting an archive or a checkout with normalised times): the result
+        # must depend on the CONTENTS of the files only
+        os.utime(p, (1_700_000_000, 1_700_000_000))
 
 
 class _Tty(io.StringIO):
